@@ -431,10 +431,18 @@ package raft
 // ---------------------------------------------------------------------------
 // identity (C20)
 
+// lock file (T-fs: os.Link fails atomically when the lock exists): locked[d] = directory d is held
+//@ ghost var locked map[uint64]bool
 //@ func lockDir
 //@   trusted
+//@   modifies locked
+//@   ensures result0 == nil ==> !old(locked[dir]) && locked[dir]
+//@   ensures result0 != nil ==> locked[dir] == old(locked[dir])
+//@   ensures forall(d, d != dir ==> locked[d] == old(locked[d]))
 //@ func unlockDir
 //@   trusted
+//@   modifies locked
+//@   ensures !locked[dir] && forall(d, d != dir ==> locked[d] == old(locked[d]))
 
 // openValue (trusted here; T-fs): returns the single value file of (dir, ext), creating
 // "0-0<ext>" only when none exists.
@@ -447,7 +455,10 @@ package raft
 //@   ensures result1 != nil ==> result0 == nil
 
 //@ func SetIdentity
-//@   modifies fs
+//@   modifies fs, locked
+//@   ensures [C20.lock-not-stolen] old(locked[storageDir]) ==> locked[storageDir] && result0 != nil
+//@   ensures [C20.lock-released] !old(locked[storageDir]) ==> !locked[storageDir]
+//@   ensures [C20.other-locks-untouched] forall(d, d != storageDir ==> locked[d] == old(locked[d]))
 //@   ensures [C20.identity-immutable] forall(a, b, old(fs[vfile(storageDir, ".id", a, b)]) && a != 0 && b != 0 && !(a == cid && b == nid) ==> result0 != nil)
 //@   ensures [C20.identity-set] result0 == nil ==> fs[vfile(storageDir, ".id", cid, nid)]
 //@   ensures [C20.identity-nonzero] cid == 0 || nid == 0 ==> result0 != nil && fs == old(fs)
